@@ -28,8 +28,8 @@ fn plan(tier: Tier) -> Vec<Unit> {
             v
         }
         Tier::Thorough => {
-            let mut v = crate::util::split_budget("pairs", 6_000_000, 10_000);
-            v.extend(crate::util::split_budget("zero", 200_000, 5_000));
+            let mut v = crate::util::split_budget("pairs", 60_000_000, 20_000);
+            v.extend(crate::util::split_budget("zero", 1_000_000, 5_000));
             v
         }
         Tier::Miri => {
